@@ -117,6 +117,8 @@ package server
 // ---- queue internals: assumed here, the subject of C20 ----
 //@ func (*LockManagerLockQueue).Push
 //@   trusted queue internals (holder queue): element-level behaviour is the subject of C20; here only the object frame is assumed
+//@   requires lock != nil && lock.command != nil
+//@   ensures C02.push.indexed,C01.push.indexed: implies(self.scaleQueue != nil && isnil(err), has(self.scaleQueue.maps, lock.command.LockId) && self.scaleQueue.maps[lock.command.LockId] == lock)
 //@   assumes refDiscipline() && lockSame(lock)
 //@   modifies LockManagerLockQueue.fastIndex, LockManagerLockQueue.fastQueue, LockManagerLockQueue.scaleQueue, LockManager.refCount, LockQueue.*, Lock.aofTime, Lock.command, Lock.data, Lock.isAof, Lock.manager, Lock.protocol, Lock.refCount, E_LJPserver_Lock, E_Pserver_Lock, E_int32, MH_mapLL16JbyteJPserver_Lock, MV_mapLL16JbyteJPserver_Lock
 
